@@ -346,3 +346,153 @@ def calls_in(n, qp=None):
 def param_type_str(call, i):
     pts = call.callee.get('pt', [])
     return call.fn.tu.types[pts[i]]['c'] if i < len(pts) else ''
+
+
+# --------------------------------------------------------------------------- small evaluators
+def const_bool_locals(fn):
+    """decl ids of local bool variables that are initialised once and never written again"""
+    out = {}
+    for n in fn.all_nodes():
+        if n.k == 'DeclStmt':
+            for d, init in n.r.get('decls', []):
+                dd = fn.tu.decls[d]
+                if fn.tu.types[dd['t']]['k'] == 'bool' and dd.get('sc') == 'local' and init >= 0:
+                    defs = local_defs(fn, d)
+                    if len(defs) == 1:
+                        out[d] = Node(fn, init)
+    return out
+
+
+def eval_int(n, env):
+    """evaluate an integer/bool expression under env {decl id: int}; None if not determined"""
+    s = n.strip(casts=True)
+    if s.k == 'DeclRefExpr' and s.declid in env:
+        return int(env[s.declid])
+    v = s.value
+    if v is not None:
+        return v
+    if s.k == 'ConditionalOperator':
+        c = eval_int(s.child('cond'), env)
+        if c is None:
+            a, b = eval_int(s.child('then'), env), eval_int(s.child('else'), env)
+            return a if a is not None and a == b else None
+        return eval_int(s.child('then') if c else s.child('else'), env)
+    if s.k == 'UnaryOperator' and s.op == '!':
+        x = eval_int(s.children[0], env)
+        return None if x is None else int(not x)
+    if s.k == 'UnaryOperator' and s.op == '-':
+        x = eval_int(s.children[0], env)
+        return None if x is None else -x
+    if s.k == 'BinaryOperator' and len(s.children) == 2:
+        a, b = eval_int(s.children[0], env), eval_int(s.children[1], env)
+        if s.op == '&&':
+            if a == 0 or b == 0:
+                return 0
+            return 1 if a is not None and b is not None else None
+        if s.op == '||':
+            if (a is not None and a != 0) or (b is not None and b != 0):
+                return 1
+            return 0 if a == 0 and b == 0 else None
+        if a is None or b is None:
+            return None
+        try:
+            return {'+': a + b, '-': a - b, '*': a * b, '<': int(a < b), '>': int(a > b), '<=': int(a <= b),
+                    '>=': int(a >= b), '==': int(a == b), '!=': int(a != b)}.get(s.op)
+        except Exception:
+            return None
+    return None
+
+
+def member_value_of(n, member_qp):
+    """n reads member `member_qp` (directly or through a conversion operator / load()/get())"""
+    s = n.strip(casts=True)
+    if refers_to_member(s, member_qp):
+        return True
+    if s.k == 'CXXMemberCallExpr' and s.obj is not None and not s.args:
+        return member_value_of(s.obj, member_qp)
+    return False
+
+
+def offset_from_member(n, member_qp, env):
+    """if n == member + k (k evaluable under env) return k, else None"""
+    s = n.strip(casts=True)
+    if member_value_of(s, member_qp):
+        return 0
+    if s.k == 'BinaryOperator' and s.op in ('+', '-'):
+        a, b = s.children
+        ka = offset_from_member(a, member_qp, env)
+        if ka is not None:
+            kb = eval_int(b, env)
+            if kb is not None:
+                return ka + kb if s.op == '+' else ka - kb
+        if s.op == '+':
+            kb = offset_from_member(b, member_qp, env)
+            ka2 = eval_int(a, env)
+            if kb is not None and ka2 is not None:
+                return kb + ka2
+    if s.k == 'ConditionalOperator':
+        c = eval_int(s.child('cond'), env)
+        if c is not None:
+            return offset_from_member(s.child('then') if c else s.child('else'), member_qp, env)
+    return None
+
+
+def valuation_edge_filter(fn, env):
+    """edge predicate pruning branch edges that contradict env (decl id -> bool) on conditions that are
+    evaluable under env"""
+    cfg = fn.cfg
+
+    def ok(v, w, lab):
+        if lab is None or not isinstance(lab[1], bool):
+            return True
+        c = cfg.cond_node(lab[0])
+        if c is None:
+            return True
+        val = eval_int(c, env)
+        if val is None:
+            return True
+        return bool(val) == lab[1]
+    return ok
+
+
+def count_on_paths(cfg, start, counted, edge_ok=None, stop=None):
+    """(min, max) number of vertices in `counted` on any path from start (exclusive) to a vertex with no
+    successor / EXIT. Cycles reachable from start that contain a counted vertex raise; other cycles are
+    ignored (they cannot change the count)."""
+    import sys
+    sys.setrecursionlimit(max(10000, sys.getrecursionlimit()))
+    memo, onstack = {}, set()
+
+    def go(v):
+        if v in memo:
+            return memo[v]
+        if v in onstack:
+            return None       # back edge
+        onstack.add(v)
+        res = None
+        succs = [(w, lab) for (w, lab) in cfg.succ[v] if edge_ok is None or edge_ok(v, w, lab)]
+        if stop is not None and stop(v):
+            succs = []
+        if not succs:
+            res = (0, 0)
+        for (w, lab) in succs:
+            r = go(w)
+            if r is None:
+                continue
+            c = 1 if w in counted else 0
+            r = (r[0] + c, r[1] + c)
+            res = r if res is None else (min(res[0], r[0]), max(res[1], r[1]))
+        onstack.discard(v)
+        if res is None:
+            res = (0, 0) if not succs else None
+        if res is not None:
+            memo[v] = res
+        return res
+    return go(start)
+
+
+def field_num(type_c):
+    """tag number N of a FIX8::Field<T, N> canonical type string, else None"""
+    import re
+    m = re.match(r'^(?:const )?FIX8::Field<.*, (\d+)>$', type_c)
+    return int(m.group(1)) if m else None
